@@ -801,7 +801,7 @@ FAILED = {}
 
 def regenerate():
     """Regenerates every fragment. A translator that meets an unsupported construct does not stop the
-    others: its fragment is removed (so the tie file that needs it cannot be built from a stale copy)
+    others: its fragment is replaced by a stub (so the tie file that needs it cannot be built from a stale copy)
     and the failure is recorded in FAILED for the properties that depend on it."""
     changed = []
     FAILED.clear()
@@ -811,8 +811,10 @@ def regenerate():
         except Exception as e:   # noqa
             FAILED[name[:-2]] = '%s: %s' % (type(e).__name__, e)
             path = os.path.join(GEN, name)
-            if os.path.exists(path):
-                os.remove(path)
+            # the fragment is replaced by a stub that defines nothing the tie file needs (a missing file would stop make
+            # altogether and leave stale compiled fragments of the other translators behind)
+            write_if_changed(name, '(* the translator could not read the source: %s *)\nDefinition translator_failed : True := I.\n'
+                             % str(e).replace('*)', '* )')[:300])
             for ext in ('.vo', '.vos', '.vok', '.glob'):
                 if os.path.exists(path[:-2] + ext):
                     os.remove(path[:-2] + ext)
